@@ -19,11 +19,14 @@ Bearers(lk) == UNION {CASE st.k = "mb" -> {st.bases[k][1] : k \in 1..Len(st.base
                         [] st.k = "curs" -> {st.recs[k][1] : k \in 1..Len(st.recs)}
                         [] OTHER -> {} : st \in Rng(lk.subs)}
 ActsOn(t, T, script) == \E li \in LookupsOfTag(t, T) : \E g \in Bearers(t.F.gpos.lookups[li + 1]) : script \in Rng(G(t, g).scripts)
+\* EVERY language system of the script (the default one and each LangSysRecord) is examined
+MissingIn(t, k, T) == {lang \in Languages(t.F, t.tags[k].tag) :
+                         /\ FeatureTags(t.F, t.tags[k].tag, lang) \cap {"kern", "dist"} # {}
+                         /\ T \notin FeatureTags(t.F, t.tags[k].tag, lang)}
 Missing(t) == {<<k, T>> \in (1..Len(t.tags)) \X (PosTags \cap AllFeatureTags(t)) :
-                 /\ FeatureTags(t.F, t.tags[k].tag, "dflt") \cap {"kern", "dist"} # {}
                  /\ t.tags[k].tag # "DFLT"
                  /\ ActsOn(t, T, t.tags[k].script)
-                 /\ T \notin FeatureTags(t.F, t.tags[k].tag, "dflt")}
+                 /\ MissingIn(t, k, T) # {}}
 \* Known finding F-C20-1: the script is not named by a languagesystem statement although the font EXPORTS a glyph with a
 \* code point that belongs to that script alone (that is how the kern writer legitimately learns about the script)
 Known(t, x) == /\ t.tags[x[1]].tag \notin Rng(t.declared)
